@@ -149,8 +149,15 @@ PredictDrop(e, ar, se) ==
   [a |-> [ar EXCEPT !.ch = <<>>, !.lim = NoLimit], sent |-> se, res |-> "ok", addr |-> 0, reqs |-> <<>>,
    frees |-> ChunkFrees(DropFrees(ar)), checkaddr |-> FALSE]
 
+\* the caller's initialiser panicked (programmed by the driver): the reservation was made, unwinding skips
+\* every rewind / release, nothing is handed out
+PredictUserPanic(e, ar, se) ==
+  LET r == Alloc(ar, se, e.size, e.align, Answers(e.ga), FUEL) IN
+  [a |-> r.a, sent |-> r.sent, res |-> "panic", addr |-> 0, reqs |-> r.reqs, frees |-> <<>>, checkaddr |-> FALSE]
+
 Predict(e, ar, se) ==
-  CASE e.op \in CtorOps -> PredictCtor(e, se)
+  CASE e.pp = 1 -> PredictUserPanic(e, ar, se)
+    [] e.op \in CtorOps -> PredictCtor(e, se)
     [] e.op \in AllocOps -> PredictAlloc(e, ar, se)
     [] e.op \in TryWithOps -> PredictTryWith(e, ar, se)
     [] e.op \in TryFillOps -> PredictTryFill(e, ar, se)
